@@ -33,7 +33,7 @@ SPEC = {
                      "InfernoVerif.Model.SelectQ", "InfernoVerif.Gen.InterpolationF",
                      "InfernoVerif.Gen.ExtrapolationF", "InfernoVerif.Gen.Dispatch"],
     "prop_files": ["InfernoVerif/Props/C02.lean"],
-    "lemma_files": ["InfernoVerif/Lemmas/Select.lean", "InfernoVerif/Lemmas/SelectQ.lean"],
+    "lemma_files": ["InfernoVerif/Lemmas/Select.lean", "InfernoVerif/Lemmas/SelectQ.lean", "InfernoVerif/Lemmas/SelectCast.lean"],
     "model_files": ["InfernoVerif/Model/Select.lean", "InfernoVerif/Model/SelectQ.lean",
                     "InfernoVerif/Gen/InterpolationR.lean", "InfernoVerif/Gen/ExtrapolationR.lean",
                     "InfernoVerif/Gen/InterpolationF.lean", "InfernoVerif/Gen/ExtrapolationF.lean"],
@@ -788,8 +788,10 @@ def relational(ctx, ex: Exploration, count: int):
 
 
 def nondyadic_probe(ctx, ex):
-    """information only: nominal grid points k*dt (float product) with tolerance 0 for non-dyadic dt —
-    how many does the real code treat as off-grid (interpolation invoked)?"""
+    """information only (partial (float)): (i) nominal grid points reached by ACCUMULATING dt (t += dt) with
+    tolerance 0 for non-dyadic dt — how many does the real code treat as off-grid (interpolation invoked)?
+    (ii) nearest/nearest round trip at the bracket midpoint +- a few ulps (the one kernel decision that
+    exact arithmetic settles by a tie rule)"""
     calls = []
 
     def probe(p, n_, s, d):
@@ -800,13 +802,35 @@ def nondyadic_probe(ctx, ex):
     for dt in (0.3, 1.3, 0.1):
         n = 12
         owner, rt = make_record(n, 0, [[float(i)] for i in range(n)], dt)
+        t = 0.0
         for k in range(n):
             calls.clear()
-            rt.select(k * dt, probe, tolerance=0.0, offset=1)
+            try:
+                rt.select(t, probe, tolerance=0.0, offset=1)
+            except ValueError:
+                calls.append(1)
             total += 1
             off += bool(calls)
-    return {"nominal_grid_points": total, "treated_off_grid_with_tolerance_0": off,
-            "note": "with the default tolerance 1e-6 all of them are on the grid; informational, not judged"}
+            t += dt
+    mid_total = mid_bad = 0
+    for dt in (0.3, 1.3, 0.1, 0.7):
+        n = 5
+        for k in range(n - 1):
+            t0 = (k + 0.5) * dt
+            for d in range(-3, 4):
+                tt = t0
+                for _ in range(abs(d)):
+                    tt = math.nextafter(tt, math.inf if d > 0 else -math.inf)
+                owner, rt = make_record(n, 0, [[float(10 + i)] for i in range(n)], dt)
+                obs = torch.tensor([99.0], dtype=T64)
+                rt.insert(obs, tt, IF.extrap_nearest, tolerance=1e-6, offset=0, inplace=True)
+                got = rt.select(tt, IF.interp_nearest, tolerance=1e-6, offset=0)
+                mid_total += 1
+                mid_bad += got.item() != 99.0
+    ex.evaluations += total + mid_total
+    return {"accumulated_grid_points": total, "treated_off_grid_or_rejected_with_tolerance_0": off,
+            "nearest_midpoint_round_trips": mid_total, "nearest_midpoint_round_trip_failures": mid_bad,
+            "note": "with the default tolerance 1e-6 every accumulated grid point is on the grid; informational, not judged"}
 
 
 # ---------------------------------------------------------------------------------------------
@@ -818,14 +842,14 @@ def explore(ctx) -> Exploration:
     transval.validate(ctx, SPEC["translate"], ex, per_fn=60 if not thorough else 300)
     cases = corpus_cases()
     ncorpus = len(cases)
-    sweep = select_sweep_cases(rng, 4 if not thorough else 6)
-    ins = insert_cases(rng, 4 if not thorough else 6, 7 if not thorough else 16)
-    flt = float_cases(rng, 150 if not thorough else 1200)
-    rnd = random_cases(rng, 150 if not thorough else 1500) + random_cases(rng, 20 if not thorough else 150, big=True)
-    nd = nondyadic_cases(rng, 60 if not thorough else 500)
+    sweep = select_sweep_cases(rng, 5 if not thorough else 8)
+    ins = insert_cases(rng, 5 if not thorough else 7, 8 if not thorough else 20)
+    flt = float_cases(rng, 300 if not thorough else 4000)
+    rnd = random_cases(rng, 300 if not thorough else 5000) + random_cases(rng, 30 if not thorough else 400, big=True)
+    nd = nondyadic_cases(rng, 100 if not thorough else 1500)
     cases += sweep + ins + flt + rnd + nd
     per_stream = run_cases(ctx, cases, ex)
-    relational(ctx, ex, 250 if not thorough else 2500)
+    relational(ctx, ex, 400 if not thorough else 8000)
     ex.extra["streams"] = per_stream
     ex.extra["non_dyadic"] = {"label": "partial (float)", **per_stream.get("non_dyadic", {}),
                               "judged_with": "tolerance 1e-6 (the property's), values to 1e-9 relative",
@@ -837,7 +861,7 @@ def explore(ctx) -> Exploration:
                "select at the same time) + float-mode sequences with the exp kernels + seeded random sequences (n up to 8 and 14..20, "
                "offsets in [-2n,2n], tolerances up to 1, 15%% out-of-range times) + a non-dyadic dt stream; plus relational checks on the real "
                "code (scalar vs tensor select/insert, insert-select round trip). A case is non-trivial when some select returned values "
-               "or some insert succeeded on the real object; distinct = distinct protocol text" % (4 if not thorough else 6))
+               "or some insert succeeded on the real object; distinct = distinct protocol text" % (5 if not thorough else 8))
     ex.samples = [sweep[5]["ops"][:6], ins[3]["ops"], flt[0]["ops"][:5], nd[0]["ops"][:4]]
     ex.extra["stream_sizes"] = {"corpus": ncorpus, "select_sweep": len(sweep), "insert_sweep": len(ins), "float_dyadic": len(flt),
                                 "random_sequences": len(rnd), "non_dyadic": len(nd)}
